@@ -393,8 +393,9 @@ def strace_scenario(cfg, syscall, max_k):
 def run():
     ck = Check("C08", level="fault_enumeration")
     ncfg = ck.pick(6, 16)
+    idxs = [0, 1, 2, 3, 5, 11, 6] if ck.quick else list(range(ncfg))     # quick: incl. the integer-pool and cluster_every=2 configurations
     tasks = [("tvf.checks.c08:scenario", dict(cfg=make_cfg(i, ck.subseed("cfg", i)), n_resume=ck.pick(2, 6), seed2=ck.subseed("res", i)), None)
-             for i in range(ncfg)]
+             for i in idxs]
     if not ck.quick:
         tasks += [("tvf.checks.c08:scenario", dict(cfg=make_cfg(i, ck.subseed("cfg2", i)), n_resume=4, seed2=ck.subseed("res2", i)), None)
                   for i in range(ncfg)]
